@@ -17,3 +17,14 @@ Definition sort_vars (l : list variant) : list variant := fold_right insert_var_
 (* apply_variants(seq, len(seq), ppes_in_range) *)
 Definition ppe_seq (start : Z) (ctx : dna) (tr : range) (ppes : list variant) : result dna :=
   apply_variants start ctx (zlen ctx) (sort_vars (ppes_in_range tr ppes)).
+
+(* get_ppe_seq under background variants (since fix 7b135b7): for ppe in ppes: if gpo.ref_to_alt_position(ppe.pos) is None:
+   raise InvalidBackgroundVariant - every edit of the targeton's guides, inside the targeton or not *)
+Fixpoint check_liftable (g : gpo) (ppes : list Z) : result unit :=
+  match ppes with
+  | [] => Ok tt
+  | p :: ps => do x <- ref_to_alt_position g p None;
+               match x with None => Err InvalidBackgroundVariant | Some _ => check_liftable g ps end
+  end.
+Definition check_ppes_liftable (g : option gpo) (ppes : list Z) : result unit :=
+  match g with None => Ok tt | Some g => check_liftable g ppes end.
